@@ -5,8 +5,14 @@ package bexpr
 
 import (
 	"encoding/json"
+	"errors"
 	"unsafe"
 )
+
+type strC09 interface{ String() string }
+type sstrC09 string
+
+func (s sstrC09) String() string { return string(s) }
 
 type sC09 struct {
 	A int
@@ -15,7 +21,7 @@ type sC09 struct {
 
 type nKeyStr string
 
-const nShapes = 54
+const nShapes = 58
 
 type nDigestC09 [2]byte
 
@@ -135,8 +141,16 @@ func shapeC09(k int) (interface{}, string) {
 		return [2]interface{}{nil, vString(1)}, "[2]interface{}"
 	case 52: // an incomparable element before ones that may match
 		return []interface{}{map[string]interface{}{"k": 1}, vString(1), vInt()}, "[]interface{map,string,int}"
-	default:
+	case 53:
 		return []interface{}{[]int{1}, nil, vString(1)}, "[]interface{[]int,nil,string}"
+	case 54: // maps keyed by a non-empty interface: a string is not assignable to the key type
+		return map[error]string{errors.New("1"): "v"}, "map[error]string"
+	case 55:
+		return map[strC09]int{sstrC09("1"): 1}, "map[Stringer]int"
+	case 56:
+		return map[[2]string]int{{"1", "x"}: 1}, "map[[2]string]int"
+	default:
+		return map[interface{}]interface{}{"1": 1, [2]int{1, 2}: 2, 5: 3, nil: 4}, "map[interface{}] with array, int and nil keys"
 	}
 }
 
